@@ -322,6 +322,25 @@ Definition flushedb (c : cfg) (slow : bool) (steps : list sstep) : bool :=
   let '(since, drained) := flushed_from c 0 false steps in
   (maxd c <=? since) && (negb slow || drained).
 
+(* the cap clause and the first-Add clause on bursts (prompt consumer): the reference follows the script as long as it is
+   sequential and supplies the number of Adds known to be pending when a burst starts (0 once
+   the order of earlier steps is not known) *)
+Fixpoint cap_walk (c : cfg) (st : option ref) (steps : list (sstep * (list act * Z))) : bool :=
+  match steps with
+  | [] => true
+  | (k, (_, os)) :: rest =>
+      match k with
+      | KBurst n =>
+          let p := match st with Some r => if r_open r then r_pend r else 0 | None => 0 end in
+          let idle := match st with Some r => negb (r_open r) | None => false end in
+          cap_burst_oracle c p n os && (if idle then idle_burst_oracle n os else true) &&
+          cap_walk c None rest
+      | KAdd | KAdv _ =>
+          cap_walk c (option_map (fun r => fst (fst (ref_step c r (sop_of k)))) st) rest
+      | _ => cap_walk c None rest
+      end
+  end.
+
 Definition oracle (k : case) : bool :=
   match k with
   | CScript c slow steps f rr cr leak =>
@@ -332,6 +351,7 @@ Definition oracle (k : case) : bool :=
          | None => false
          end
        else true) &&
+      (slow || cap_walk c (Some ref_init) steps) &&
       any_oracle (flushedb c slow ks) (timeline steps) rr cr leak
   | CStress _ worst rr cr leak => (worst <=? 0) && end_oracle rr cr leak
   | CPark _ _ _ _ held allc rr leak => park_oracle held allc rr leak
